@@ -130,6 +130,7 @@ class Check:
         self.notes = []
         self.assumptions = []
         self.extra = {}
+        self.selftest = None
         kf = load_json("known_findings.json")
         self.known = {}
         for e in kf.get("findings", []):
@@ -213,8 +214,11 @@ class Check:
             "violations": len(self.violations),
         }
         ev["coverage"].update(self.extra)
-        os.makedirs(os.path.join(VERIF, "evidence"), exist_ok=True)
-        with open(os.path.join(VERIF, "evidence", self.prop + ".json"), "w") as fh:
+        if self.selftest is not None:
+            ev["coverage"]["selftest"] = self.selftest
+        evdir = os.environ.get("VERIF_EVIDENCE_DIR") or os.path.join(VERIF, "evidence")
+        os.makedirs(evdir, exist_ok=True)
+        with open(os.path.join(evdir, self.prop + ".json"), "w") as fh:
             json.dump(ev, fh, indent=1, sort_keys=True)
             fh.write("\n")
         print("%s tier=%s units=%d obligations=%d discharged=%d known=%d violations=%d wall=%.1fs" % (
@@ -228,8 +232,9 @@ class Check:
             seen.add(o["key"])
             print("KNOWN-FINDING: property=%s %s [%s] %s" % (self.prop, self.known[o["key"]].get("what", o["detail"]), o["loc"], o["key"]))
         if self.violations:
-            os.makedirs(os.path.join(VERIF, "reports"), exist_ok=True)
-            rp = os.path.join(VERIF, "reports", "%s-%s.json" % (self.prop, self.tier))
+            rdir = os.environ.get("VERIF_REPORT_DIR") or os.path.join(VERIF, "reports")
+            os.makedirs(rdir, exist_ok=True)
+            rp = os.path.join(rdir, "%s-%s.json" % (self.prop, self.tier))
             with open(rp, "w") as fh:
                 json.dump({"property": self.prop, "tier": self.tier, "violations": self.violations}, fh, indent=1)
             for o in self.violations:
